@@ -80,6 +80,20 @@ func c08Scens(tier string) []msScen {
 			}
 		}
 	}
+	// the audio track listed before the video track (the rendition is then the first stream of the muxer): readers of the
+	// rendition's playlist before there is content, around the first rotations and around a rotation that makes the target
+	// duration grow
+	cfgLLAF := muxCfg{Variant: "ll", Tracks: []trackSpec{{Kind: "aac44", Name: "eng", Lang: "en"}, {Kind: "h264"}}, SegCount: 7, SegMinMS: 1000, PartMS: 500}
+	cfgFMP4AF := muxCfg{Variant: "fmp4", Tracks: []trackSpec{{Kind: "aac44"}, {Kind: "h264"}}, SegCount: 3, SegMinMS: 1000}
+	for _, eb := range []base{{cfgLLAF, []int{0, 1, 5}}, {cfgFMP4AF, []int{0, 5}}} {
+		for _, warm := range eb.warms {
+			for _, rs := range [][]string{{"PLA", "PLA"}, {"PL", "PLA"}, {"PLA", "PL"}} {
+				out = append(out, msScen{Prop: "C08", Cfg: eb.cfg, Warm: warm, Writes: 5, Reqs: [][]string{rs}, Bound: bound, Shards: 1})
+			}
+		}
+		out = append(out, msScen{Prop: "C08", Cfg: eb.cfg, Warm: 9, Writes: 5, LongSeg: 1, Reqs: [][]string{{"PLA", "PLA"}}, Bound: bound, Shards: 1})
+		out = append(out, msScen{Prop: "C08", Cfg: eb.cfg, Warm: 9, Writes: 5, LongSeg: 1, Reqs: [][]string{{"PLA"}, {"PL"}}, Bound: bound, Shards: 1})
+	}
 	for _, b := range bases {
 		ll := b.cfg.Variant == "ll"
 		for _, warm := range b.warms {
